@@ -224,8 +224,13 @@ def handle (cmd : String) (args impl : List String) : Option (String × String) 
         let opl := ops.map (·.2)
         let p :=
           if cmd = "c01.run" then SpecC01.verdict (SpecC01.frontier hasDQ opl)
+          else if cmd = "c04.run" then
+            -- liveness only: every accepted event was finalized (commit or drop) and the run went idle
+            match (SpecC01.order hasDQ (last = "idle") opl).bad with
+            | some ("lost", e, _) => s!"fail:lost:{e.off}:{e.off}"
+            | _ => "ok"
           else SpecC01.verdict (SpecC01.order hasDQ (last = "idle") opl)
-        let p := if last = "stuck" ∧ p = "ok" ∧ cmd = "c02.run" then "fail:stuck:0:0" else p
+        let p := if last = "stuck" ∧ p = "ok" ∧ (cmd = "c02.run" ∨ cmd = "c04.run") then "fail:stuck:0:0" else p
         some (m, p)
   | _ => none
 
